@@ -198,7 +198,7 @@ theorem setMarshaled_shape {v : Value} {es es' : Bkt} {name : Bytes} {a : Bool}
   | goInt i => simp only [setMarshaled] at h; exact ⟨_, bput_ok h⟩
   | f64 b => simp only [setMarshaled] at h; exact ⟨_, bput_ok h⟩
   | bool b => simp only [setMarshaled] at h; exact ⟨_, bput_ok h⟩
-  | time p => simp only [setMarshaled] at h; exact ⟨_, bput_ok h⟩
+  | time t => simp only [setMarshaled, timePayload_eq] at h; exact ⟨_, bput_ok h⟩
 
 theorem putElems_frame (xs : List Value) (child : Bkt) (idx : Nat) (child' : Bkt)
     (h : putElems child xs idx = .ok child') (j : Bytes) (hj : ∀ i, i < xs.length → j ≠ idxKey (idx + i)) :
@@ -241,7 +241,7 @@ theorem setMarshaled_ok (v : Value) (es : Bkt) (name : Bytes) (hw : wellKeyed v 
   | .goInt i => exact ⟨_, by simp only [setMarshaled]; exact bput_fresh _ h1 h2 h3⟩
   | .f64 b => exact ⟨_, by simp only [setMarshaled]; exact bput_fresh _ h1 h2 h3⟩
   | .bool b => exact ⟨_, by simp only [setMarshaled]; exact bput_fresh _ h1 h2 h3⟩
-  | .time p => exact ⟨_, by simp only [setMarshaled]; exact bput_fresh _ h1 h2 h3⟩
+  | .time t => exact ⟨_, by simp only [setMarshaled, timePayload_eq]; exact bput_fresh _ h1 h2 h3⟩
   | .unsupported => simp [wellKeyed] at hw
   | .map kvs =>
     have hk : wellKeyedKvs kvs = true := by simpa [wellKeyed] using hw
